@@ -107,6 +107,24 @@ CLAIMS = {
         "note": "trusted: Lean kernel + propext/Classical.choice/Quot.sound; the hand-written model (Mb2.Build) outside the generated cases; rustc layout/codegen; Box / allocator behaviour (observed through a tracking global allocator); the Python oracle (vlib/oracle.py: expected_ctor etc.) as independent transcription of the specification; harness",
         "technique": "Lean 4 proof + exhaustive (2^10 x 2) differential correspondence + oracle",
     },
+    "C11": {
+        "text": "Lean 4 theorems: header_accessors (for a valid header the four accessors return the stored magic, architecture, length, checksum), tag_iter_is_spec_walk (the header-tag iterator = the specification walk from offset 16 to the declared length), hgetTag_first (first tag of the type in walk order / nothing when absent), layout_eq_spec + field_decodes (every field accessor of every header-tag kind = little-endian value at the specified offset, inside the tag), info_request_count ((size-8)/4 words, remainder = controlled panic). Tied to /repo by HSWEEP over valid headers of all 11 kinds (random = byte-marked fields, duplicates, orders, all request-list lengths 0..8, both architectures), dev+release; Python oracle decodes at the specification's offsets.",
+        "design": "DESIGN.md section 6 (C11)",
+        "note": "trusted: Lean kernel + propext/Classical.choice/Quot.sound; the hand-written model (Mb2.HTags / Mb2.Header) outside the generated cases; rustc layout/codegen; the Python oracle as independent transcription of the specification; harness, guard pages",
+        "technique": "Lean 4 proof + differential correspondence + independent decoding oracle",
+    },
+    "C09": {
+        "text": "Lean 4 theorems under the property's hypothesis (enumerated fields hold declared values; the model answers `ub` otherwise and such cases are recognised and set aside): walk_no_fault, bad_size_panics (a tag size below 8 or leaving the declared length is a controlled panic in BOTH profiles), cast_no_fault, hgetTag_no_fault, view_inside_tag (every typed view spans exactly the tag's rounded extent inside the declared length), inforeq_words_inside, walk_bounded; loading itself never panics/faults by C10.hload_eq. Tied to /repo by HSWEEP over adversarial headers (all kinds x sizes 0..beyond the region, corrupted lengths, missing end tag) with in-range enumerated fields, region flush against a PROT_NONE page, two poison fills, crash detection; Python oracle checks every view/extent. PARTIAL as C01: the loads the machine code performs are a runtime fact.",
+        "design": "DESIGN.md section 6 (C09), section 9",
+        "note": "trusted: Lean kernel + propext/Classical.choice/Quot.sound; the hand-written model (Mb2.HTags / Mb2.Header) outside the generated cases; rustc layout/codegen; the Python oracle as independent transcription of the specification; harness, guard pages",
+        "technique": "Lean 4 proof (no-fault theorems over a checked-read memory model) + differential correspondence + guard-page / poison detectors",
+    },
+    "C08": {
+        "text": "Lean 4 theorems that the build profile is irrelevant on every parsing path of the model (which carries a Profile parameter at each unchecked arithmetic site of the code): payloadLen/refFromSlice/load/hload/next/tags/cast/hcast/getTag _profile_independent, for all inputs; field accessors and the EFI/ELF/memory-map/RSDP/string/framebuffer readers take no profile at all. The full statement `no undefined behaviour for any input` is PROVED FALSE (full_statement_fails: architecture word 1) and load_ub_only_by_arch bounds where: known finding F20. Features do not occur in the model; that no cfg(feature) lies on a parsing path is OBSERVED: the same cases run through four real builds {dev, release} x {default, --no-default-features}, transcripts must be pairwise identical and equal to the model.",
+        "design": "DESIGN.md section 6 (C08), sections 7 and 9",
+        "note": "trusted: Lean kernel + propext/Classical.choice/Quot.sound; the hand-written model (Mb2.HTags / Mb2.Header) outside the generated cases; rustc layout/codegen; the Python oracle as independent transcription of the specification; harness, guard pages; PARTIAL: optimiser behaviour under undefined behaviour has no semantics - cases where the model says `ub` are reported as KNOWN-FINDING F20 (known_findings.json), everything else is compared",
+        "technique": "Lean 4 proof (profile-independence of the model) + four-build differential correspondence",
+    },
 }
 
 NOT_YET = "not yet claimed: the Lean model, theorems and correspondence check for this property are still being built (DESIGN.md section 12 gives the order); the technique applies and the property will be claimed"
